@@ -50,14 +50,19 @@ def _cases(draw):
         elif ek == "burn":
             a = draw(st.integers(1, n * dt - 10))
             events.append({"kind": "burn", "tgt": j, "tau": a, "tau_end": draw(st.integers(a + 1, n * dt)), "acc": 1e-6, "planned": draw(st.booleans())})
+    # agents that join mid-run (target_addition / space-based sensor_addition events)
+    adds = []
+    for j in range(draw(st.sampled_from([0, 1, 2, 2, 3]))):
+        adds.append({"kind": draw(st.sampled_from(["target", "target", "sensor"])), "tau": draw(st.integers(1, (n - 1) * dt)),
+                     "head": draw(st.floats(0, 360)), "r": draw(st.sampled_from([8500.0, 12000.0, 26560.0])), "dlat": draw(st.floats(-5, 5))})
+    pool = ["truth_only", "filter", "filter_model", "reward", "decision", "sensor", "noise", "output", "split", "agents", "schedule"] + (["adds"] if adds else [])
     variants = []
     for _ in range(3):
-        cats = draw(st.lists(st.sampled_from(["truth_only", "filter", "reward", "decision", "sensor", "noise", "output", "split", "agents", "schedule"]),
-                             min_size=1, max_size=4, unique=True))
+        cats = draw(st.lists(st.sampled_from(pool), min_size=1, max_size=4, unique=True))
         variants.append({"cats": sorted(cats), "split": draw(st.lists(st.integers(1, n - 1), min_size=1, max_size=2, unique=True)),
                          "output_mult": draw(st.sampled_from([2, 3])), "sched": draw(st.lists(st.integers(0, 11), min_size=3, max_size=8)),
-                         "salt": draw(st.integers(1, 10**6)), "remove": draw(st.integers(1, nt - 1)), "policy": draw(st.sampled_from(["MyopicNaiveGreedyDecision", "RandomDecision"]))})
-    return {"start": iso(t0), "dt": dt, "n": n, "model": model, "integrator": draw(st.sampled_from(["RK45", "DOP853"])), "targets": targets,
+                         "salt": draw(st.integers(1, 10**6)), "drop_add": draw(st.integers(0, 2)), "remove": draw(st.integers(1, nt - 1)), "policy": draw(st.sampled_from(["MyopicNaiveGreedyDecision", "RandomDecision"]))})
+    return {"start": iso(t0), "dt": dt, "n": n, "model": model, "filter_model": draw(st.sampled_from(["two_body", "special_perturbations"])), "adds": adds, "integrator": draw(st.sampled_from(["RK45", "DOP853"])), "targets": targets,
             "events": events, "variants": variants}
 
 
@@ -82,6 +87,18 @@ def _config(c, v=None):
         else:
             evs.append({"scope": "agent_propagation", "scope_instance_id": tid, "event_type": "finite_burn", "start_time": when(e["tau"]),
                         "end_time": when(e["tau_end"]), "acc_vector": [0.0, e["acc"], 0.0], "thrust_frame": "ntw", "planned": e["planned"]})
+    adds = list(enumerate(c.get("adds", [])))
+    if "adds" in cats and adds:
+        del adds[v.get("drop_add", 0) % len(adds)]
+    for j, a in adds:
+        st_a = kit.circular_state_over(SITE[0], SITE[1], t0, a["r"], heading_deg=a["head"], offset_deg=(a["dlat"], -2.0 + j))
+        when_a = (t0 + timedelta(seconds=a["tau"])).strftime("%Y-%m-%dT%H:%M:%S.000Z")
+        if a["kind"] == "target":
+            evs.append({"scope": "scenario_step", "scope_instance_id": 0, "start_time": when_a, "event_type": "target_addition",
+                        "tasking_engine_id": 1, "target_agent": kit.eci_target(14001 + j, st_a)})
+        else:
+            evs.append({"scope": "scenario_step", "scope_instance_id": 0, "start_time": when_a, "event_type": "sensor_addition",
+                        "tasking_engine_id": 1, "sensor_agent": kit.space_sensor(24001 + j, st_a, kind="adv_radar", covariance=cov, **sensor_over)})
     if "agents" in cats:
         drop = 13001 + v["remove"]
         tgts = [t for t in tgts if t["id"] != drop]
@@ -92,7 +109,10 @@ def _config(c, v=None):
                      decision_extra={"seed": 7} if ("decision" in cats and v["policy"] == "RandomDecision") else None)
     noise = {"init_position_std_km": 5.0, "init_velocity_std_km_p_sec": 1e-3, "random_seed": 99} if "noise" in cats else None
     seq = {"alpha": 0.5, "resample": True} if "filter" in cats else {"alpha": 0.5}
-    return kit.scenario_config(t0, t0 + timedelta(seconds=(n + 1) * dt), dt, [eng], events=evs, model=c["model"], filter_model="two_body",
+    fm = c.get("filter_model", "two_body")
+    if "filter_model" in cats:
+        fm = "special_perturbations" if fm == "two_body" else "two_body"
+    return kit.scenario_config(t0, t0 + timedelta(seconds=(n + 1) * dt), dt, [eng], events=evs, model=c["model"], filter_model=fm,
                                integrator=c["integrator"], truth_only="truth_only" in cats, noise=noise, seq_filter=seq,
                                output_dt=dt * v["output_mult"] if "output" in cats else dt,
                                geopotential={"model": "egm96.txt", "degree": 4, "order": 4}, perturbations={"third_bodies": ["sun", "moon"]})
@@ -162,10 +182,11 @@ def variants(c, rec):
         except np.linalg.LinAlgError:
             rec.label("variant_skipped_filter_failure")
             continue
-        if len(cats) >= 2 and set(cats) & {"schedule", "split", "agents"}:
+        if len(cats) >= 2 and set(cats) & {"schedule", "split", "agents", "adds"}:
             rec.nontrivial([hash(str(c["targets"]) + c["start"]) % 10**6, tuple(cats)])
         for cat in cats:
             rec.label("cat:" + cat)
+        rec.label(f"midrun_additions:{len(c.get('adds', []))}")
         common = set(mem0) & set(mem1)
         if len(common) < c["n"] * 2:
             raise Violation("variant_incomplete", f"variant {cats}: only {len(common)} common (agent, step) truth states")
@@ -179,3 +200,51 @@ def variants(c, rec):
         for key, b in db1.items():
             if key in mem1 and mem1[key] != b:
                 raise Violation("stored_vs_memory", f"variant {cats}: stored truth ephemeris of agent {key[0]} at step {key[1]} differs from memory")
+
+
+# ------------------------------------------------------------------------------------------------
+def _fid_cases():
+    return st.builds(lambda t, dt, n, model: {"start": iso(t), "dt": dt, "n": n, "model": model}, eop_instants(margin_days=3),
+                     st.sampled_from([30, 60]), st.integers(2, 4), st.sampled_from(["two_body", "special_perturbations"]))
+
+
+@PROP.clause("real_ray_fidelity", strategy=_fid_cases, quick=1, thorough=12, shards=1, thorough_shards=4, shrink=False)
+def real_ray_fidelity(c, rec):
+    """the same scenario on REAL Ray (separate process, no double) and on the in-process double: truth rows bit-identical, same table sizes"""
+    import json
+    import os
+    import subprocess
+    import sys
+    import tempfile
+
+    t0 = parse(c["start"])
+    dt, n = c["dt"], c["n"]
+    base = {"start": c["start"], "dt": dt, "n": n, "model": c["model"], "integrator": "RK45",
+            "targets": [{"dlat": 1.0, "dlon": -2.0, "head": 30.0, "r": 20000.0}, {"dlat": -3.0, "dlon": 2.0, "head": 200.0, "r": 9000.0}],
+            "events": [{"kind": "impulse", "tgt": 0, "tau": dt + 1, "dv": 0.05, "planned": False}], "variants": []}
+    cfg = _config(base)
+    tmp = tempfile.mkdtemp(prefix="vf-fid-")
+    try:
+        cin, cout = os.path.join(tmp, "cfg.json"), os.path.join(tmp, "out.json")
+        json.dump({"config": cfg, "start": t0.isoformat(), "seconds": n * dt}, open(cin, "w"))
+        env = dict(os.environ, PYTHONPATH=os.environ.get("PYTHONPATH", ""))
+        r = subprocess.run([sys.executable, "-W", "ignore", "-m", "vf.realray_run", cin, cout], capture_output=True, text=True, env=env, timeout=900)
+        if r.returncode != 0 or not os.path.exists(cout):
+            from vf.runner import HarnessError
+
+            raise HarnessError(f"real-Ray run failed: {r.stderr[-800:]}")
+        real = json.load(open(cout))
+    finally:
+        import shutil
+
+        shutil.rmtree(tmp, ignore_errors=True)
+    mem, db = _run(base, None)
+    counts = {t: kit.raw_sql(f"select count(*) from {t}")[0][0] for t in ("epochs", "agents", "truth_ephemerides", "estimate_ephemerides", "tasks")}
+    rec.nontrivial([c["start"], dt, n, c["model"]])
+    if counts != real["counts"]:
+        raise Violation("fidelity_counts", f"table sizes differ between real Ray {real['counts']} and the double {counts}")
+    rows = kit.raw_sql("select agent_id, julian_date, pos_x_km, pos_y_km, pos_z_km, vel_x_km_p_sec, vel_y_km_p_sec, vel_z_km_p_sec from truth_ephemerides order by agent_id, julian_date")
+    mine = [[r_[0], repr(r_[1])] + [float(x).hex() for x in r_[2:]] for r_ in rows]
+    if mine != real["truth"]:
+        bad = next((a, b) for a, b in zip(mine, real["truth"]) if a != b)
+        raise Violation("fidelity_truth", f"truth ephemerides differ between real Ray and the in-process double, first difference: double {bad[0]} vs real {bad[1]}")
